@@ -153,7 +153,7 @@ def gen_case(r, pid=None):
             cut -= 1
         ticks = ticks[:cut] + ["end"]
     case = dict(ncomp=ncomp, comps=comps, fb_owners=fb_owners, fb_fn=fb_fn, teleop_in_auto=r.random() < 0.4,
-                has_auto=r.random() < 0.7, fms=fms, nattr=nattr, marked=marked,
+                has_auto=r.random() < 0.7, auto_falsy=r.random() < 0.3, fms=fms, nattr=nattr, marked=marked,
                 robot_split=(r.randrange(0, ncomp + 1) if ncomp and r.random() < 0.3 else 0),
                 ticks=ticks, raises=[], writes={}, fbval={})
     blocks, _ = spec_sites(case)
@@ -252,7 +252,8 @@ def small_scope(r):
 def add_timing(case, r):
     """callbacks that take simulated time and wake-ups that come late, all fitting in the period
     (Robot.Period.fits): spend[k] us inside invocation k, jitter[i] us lateness of the wake-up of tick i"""
-    P = r.choice([20000, 20000, 10000, 25000, 5000])
+    # incl. periods whose float product with 1e6 lies just below a whole number of microseconds (0.0157 * 1e6 = 15699.999...)
+    P = r.choice([20000, 20000, 10000, 25000, 5000, 15700, 16300, 31400, 3970])
     blocks, _ = spec_sites(case)
     case["timed"] = True
     case["period_us"] = P
@@ -783,15 +784,29 @@ def robot_check(ctx, pid):
                     found.append({"kind": "feedback-key", "what": vd["what"], "fingerprint": "C11:" + vd["fingerprint"],
                                   "fcase": fcs[i], "observed": fobs[i]})
                     return found
+        def confirmed(c):
+            """shrink, re-run, and keep the candidate only if the violation shows again (a robot that merely could not be
+            driven on a loaded machine is not a violation of the property)"""
+            rec = violation_record(shrink(c, pid), pid)
+            if rec["what"] != "?" and "could not be driven" not in rec["what"]:
+                return rec
+            rec = violation_record(c, pid)
+            if rec["what"] != "?" and "could not be driven" not in rec["what"]:
+                return rec
+            return None
         for i in bad[:60]:
             c, o = pairs[i]
             if any(p == pid for p, _ in oracle(c, o)):
-                found.append(violation_record(shrink(c, pid), pid))
-                return found
+                rec = confirmed(c)
+                if rec:
+                    found.append(rec)
+                    return found
         for c, o in pairs + undriven:
             if any(p == pid for p, _ in oracle(c, o)):
-                found.append(violation_record(shrink(c, pid), pid))
-                return found
+                rec = confirmed(c)
+                if rec:
+                    found.append(rec)
+                    return found
         import time
         t0 = time.time()
         extra = 0
@@ -800,8 +815,10 @@ def robot_check(ctx, pid):
             extra += len(batch)
             for c, o in zip(batch, run_many(batch)):
                 if any(p == pid for p, _ in oracle(c, o)):
-                    found.append(violation_record(shrink(c, pid), pid))
-                    return found
+                    rec = confirmed(c)
+                    if rec:
+                        found.append(rec)
+                        return found
         ctx.coverage["search_extra_cases"] = extra
         if bad:
             c, o = pairs[bad[0]]
